@@ -362,3 +362,18 @@ Definition c17_label_sb (path : str) (v : value) : bool :=
 
 (** Every argument list was evaluated exactly once. *)
 Definition c17_once_sb (counts : list N) : bool := forallb (N.eqb 1) counts.
+
+(** What [--list] shows of one entry under the flat semantics: one leaf at the
+    entry's display path if the filter keeps it (for argument entries: if it
+    keeps at least one argument), marked ignored (1) or not (2). *)
+Definition flat_list_case (c : cfg) (groups : list group_entry) (e : any_entry) : list (N * str) :=
+  let ch := entry_chain groups e in
+  let path := join_path (chain_path ch) (entry_display e) in
+  let options := merge_opts (chain_options ch) (m_opts (entry_meta e)) in
+  let kept := match entry_runner e with
+              | RPlain => c_filter c path
+              | RArgs _ vals => existsb (fun i => c_filter c (arg_path path e i)) (index_list (length vals))
+              end in
+  if kept then [(if leaf_ignored c options then 1 else 2, path)] else [].
+Definition flat_list (c : cfg) (benches : list bench_entry) (groups : list group_entry) :=
+  flat_map (flat_list_case c groups) (all_entries benches groups).
